@@ -2,7 +2,7 @@
 '''Evaluate a behaviour-preserving refactoring produced by a sub-agent: usage refeval.py <ID> <N> [--keep]'''
 import json, os, shutil, subprocess, sys
 PY = '/venv/bin/python'
-PROPS = ['C01','C02','C03','C04','C05','C06','C07','C08','C09','C10','C11','C12','C13','C14','C15','C18','C19','C20']
+PROPS = ['C01','C02','C03','C04','C05','C06','C07','C08','C09','C10','C11','C12','C13','C14','C15','C17','C18','C19','C20']
 
 def sh(cmd, cwd, env=None, timeout=900):
     p = subprocess.run(cmd, cwd=cwd, shell=True, capture_output=True, text=True, env=env, timeout=timeout)
